@@ -189,20 +189,49 @@ Lemma in_filter_managed flt m tp :
   In tp (filter_managed flt m) <-> In tp m /\ passes flt (fst tp) = true.
 Proof. unfold filter_managed. apply filter_In. Qed.
 
+Lemma flat_map_nil_local {A B} (g : A -> list B) l : (forall x, In x l -> g x = []) -> flat_map g l = [].
+Proof. induction l as [|x l IH]; simpl; intros H; [reflexivity|]. rewrite H by (left; reflexivity). apply IH. intros y Hy. apply H. right. exact Hy. Qed.
+
 Lemma in_managed_for_plan w roots flt tp :
   In tp (managed_for_plan w roots flt) ->
   passes flt (fst tp) = true /\
   ((exists r, In r roots /\ In tp (root_managed (files w) r)) \/
-   (load_managed (files w) roots = [] /\
+   (any_usable (files w) roots = false /\
     exists sn, latest_dr (snaps w) = Some sn /\ In tp (snap_managed sn) /\ under_roots roots tp = true)).
 Proof.
-  unfold managed_for_plan. destruct (load_managed (files w) roots) as [|x m] eqn:E.
+  unfold managed_for_plan. destruct (any_usable (files w) roots) eqn:E.
+  - intros H. apply in_filter_managed in H as [H1 H2]. split; [exact H2|]. left.
+    unfold load_managed in H1. apply in_flat_map in H1. exact H1.
   - destruct (latest_dr (snaps w)) as [sn|] eqn:E2; [|intros []].
     intros H. apply in_filter_managed in H as [H1 H2]. apply filter_In in H1 as [H1 H3].
     split; [exact H2|]. right. split; [reflexivity|].
     exists sn. auto.
-  - intros H. apply in_filter_managed in H as [H1 H2]. split; [exact H2|]. left.
-    rewrite <- E in H1. unfold load_managed in H1. apply in_flat_map in H1. exact H1.
+Qed.
+
+Lemma any_usable_false_load f roots : any_usable f roots = false -> load_managed f roots = [].
+Proof.
+  unfold any_usable, load_managed. intros H. apply flat_map_nil_local. intros r Hr.
+  unfold root_managed. destruct (read_manifest f r) eqn:E; [|reflexivity].
+  exfalso. assert (existsb (fun r => match read_manifest f r with Some _ => true | None => false end) roots = true).
+  { apply existsb_exists. exists r. rewrite E. auto. }
+  congruence.
+Qed.
+
+Lemma any_usable_false_none f roots : any_usable f roots = false -> forall r, In r roots -> read_manifest f r = None.
+Proof.
+  unfold any_usable. intros H r Hr. destruct (read_manifest f r) eqn:E; [|reflexivity].
+  exfalso. assert (existsb (fun r => match read_manifest f r with Some _ => true | None => false end) roots = true).
+  { apply existsb_exists. exists r. rewrite E. auto. }
+  congruence.
+Qed.
+
+Lemma load_in_managed_for_plan w roots flt tp :
+  In tp (load_managed (files w) roots) -> passes flt (fst tp) = true -> In tp (managed_for_plan w roots flt).
+Proof.
+  intros Hl Hp. unfold managed_for_plan.
+  destruct (any_usable (files w) roots) eqn:E.
+  - apply in_filter_managed. auto.
+  - rewrite (any_usable_false_load _ _ E) in Hl. contradiction.
 Qed.
 
 Lemma latest_dr_in l sn : latest_dr l = Some sn -> In sn l /\ kind_dr (sn_kind sn) = true.
